@@ -65,11 +65,32 @@ def dup_rule_tree(rng):
     return mk_node("VROOT", [mk_node("S", kids, edge="--", lemma="--", morph="--")], edge="--", lemma="--", morph="--")
 
 
-def disco_case(rng):
-    cfg = treegen.Cfg(n_min=2, n_max=10, p_disc=rng.choice([0.0, 0.4, 0.7]), p_punct=0.0, labels=treegen.PLAIN_LABELS,
+HIST = ["root_attach", "punctuation_root", "punctuation_verylow", "punctuation_symetrify", "heads+boyd_split+raising",
+        "punctuation_delete"]
+
+
+def aged_tree(rng, n_min=1):
+    """a tree with a past: produced by a reader, analysed before, changed in place since"""
+    import history
+    cfg = treegen.Cfg(n_min=n_min, n_max=9, p_disc=rng.choice([0.0, 0.4, 0.7]), p_punct=0.3, labels=treegen.PLAIN_LABELS,
                       none_fields=False, max_arity=4)
     t = treegen.gen_tree(rng, cfg)
-    _, _, b = tx.run_impl([rng.choice(HEADS), ("binarize", {})], tx.fresh(t, 1))
+    t.data['sid'] = 1
+    t, past = history.aged(rng, t, allowed=HIST)
+    return t, past
+
+
+def disco_case(rng, with_past=False):
+    cfg = treegen.Cfg(n_min=2, n_max=10, p_disc=rng.choice([0.0, 0.4, 0.7]), p_punct=0.0, labels=treegen.PLAIN_LABELS,
+                      none_fields=False, max_arity=4)
+    if with_past:
+        t, _ = aged_tree(rng, 2)
+        _, _, b = tx.run_impl([rng.choice(HEADS), ("binarize", {})], t)     # the same objects, not a copy
+    else:
+        t = treegen.gen_tree(rng, cfg)
+        b = None
+    if b is None:
+        _, _, b = tx.run_impl([rng.choice(HEADS), ("binarize", {})], tx.fresh(t, 1))
     a = proto.enc_tree(b)
     res = []
     lines = []
@@ -84,7 +105,8 @@ def disco_case(rng):
     if not any(r.startswith("ERR") for r in res):
         lines.append(Line("pred", "P.C16.disco", [a, res[0], res[1]]))
     deg = treeanalysis.gap_degree(b)
-    return Case("disco_order", {"tree": proto.pretty_tree(b), "left": res[0], "rightd": res[1]}, lines, nontrivial=deg > 0)
+    return Case("disco_order-with-past" if with_past else "disco_order", {"tree": proto.pretty_tree(b), "left": res[0], "rightd": res[1]},
+                lines, nontrivial=deg > 0)
 
 
 def cli_case(rng):
@@ -151,6 +173,15 @@ def gen(seed, tier, scale):
     for _ in range((600 if tier == "quick" else 10000) * scale):
         rng = case_rng(seed, ID, idx)
         yield idx, disco_case(rng)
+        idx += 1
+    for _ in range((300 if tier == "quick" else 5000) * scale):
+        rng = case_rng(seed, ID, idx)
+        t, _ = aged_tree(rng)
+        yield idx, node_case(t, "with-past")
+        idx += 1
+    for _ in range((300 if tier == "quick" else 5000) * scale):
+        rng = case_rng(seed, ID, idx)
+        yield idx, disco_case(rng, with_past=True)
         idx += 1
     ncli = (24 if tier == "quick" else 300) * scale
     rngs = [case_rng(seed, ID, idx + i) for i in range(ncli)]
